@@ -430,6 +430,9 @@ impl TypeSerialize {
     }
     #[doc(hidden)]
     pub fn serialize(&mut self) -> Result<()> {
+        // Serializing again (a second call, or a retry after a writer error) must
+        // not append to the header produced by an earlier call.
+        self.result.clear();
         leb128_encode(&mut self.result, self.type_table.len() as u64)?;
         self.result.append(&mut self.type_table.concat());
 
